@@ -393,8 +393,18 @@ func streamSuite(r *Run, prop string) {
 func unarySuite(r *Run, prop string) {
 	rng := r.Rng.Fork("unary")
 	n := r.Budget(200, 4000)
-	for i := 0; i < n; i++ {
+	var corpus [][]string // IU.txt: "<op;op;...>" — past failures and directed interleavings first
+	for _, f := range corpusLines("IU") {
+		if len(f) == 1 {
+			corpus = append(corpus, stripResults(f[0]))
+		}
+	}
+	for i := -len(corpus); i < n; i++ {
 		o := iuOpts{steps: 3 + rng.Intn(8), allowHolds: i%2 == 0, allowStall: prop == "C06" || i%7 == 3}
+		if i < 0 {
+			o = iuOpts{fixed: corpus[i+len(corpus)]}
+			r.Count("corpus:IU")
+		}
 		sc := runUnaryScript(rng, o)
 		r.Op(sc.line(), "observed")
 		r.TracesOnImpl++
